@@ -190,7 +190,7 @@ SPEC = {
         "branch.proj.deleted_nodes", "branch.proj.deleted_edges", "branch.proj.nested", "branch.ts.delete_edge",
         "branch.reach.start_on_cycle", "branch.reach.empty", "branch.bfs.distance_ge3", "branch.normalize.am", "branch.normalize.csr",
         "branch.seg.single_node", "branch.tsbfs.both", "branch.tsdfs.in", "branch.traversal.depth_exceeded",
-        "branch.traversal.unbounded_depth", "branch.zone.readeach", "branch.adj1.csr", "branch.toseg", "branch.tssl.both", "branch.tssl.in", "branch.numedges.proj", "branch.dims", "gen.shape.proj_deletes_non_node", "branch.handles.reobserved", "branch.snap", "branch.proj.nested", "branch.proj.provider.tsd", "branch.proj.provider.tsd2", "branch.factory.build", "branch.factory.nil_list", "branch.factory.empty_list", "branch.factory.fetch.all", "branch.factory.fetch.k1",
+        "branch.traversal.unbounded_depth", "branch.zone.readeach", "branch.adj1.csr", "branch.toseg", "branch.tssl.both", "branch.tssl.in", "branch.numedges.proj", "branch.dims", "gen.shape.proj_deletes_non_node", "branch.handles.reobserved", "branch.snap", "branch.proj.nested", "branch.proj.provider.tsd", "branch.proj.provider.tsd2", "gen.shape.dense_ids", "gen.shape.partly_dense_ids", "branch.factory.build", "branch.factory.nil_list", "branch.factory.empty_list", "branch.factory.fetch.all", "branch.factory.fetch.k1",
     ],
     "trusted_base": [
         "RoaringBitmap / cardinality.Bitmap64 native Add/Or/Contains/Each (modelled as ascending lists), Go maps, gammazero/deque, encoding/binary, compress/gzip",
